@@ -155,6 +155,14 @@ while len(cases) < ncase:
         vol = (k == 3)
         comps = [component(allow_nodens=not vol) for _ in range(n)]
         ps = sorted(round(rng.uniform(0.5, 90.0 / n), rng.randint(0, 3)) for _ in range(n - 1))
+        if rng.random() < 0.12:
+            # very unequal parts: the last component gets a remainder of 1e-3 .. 1e-9 percent
+            e = rng.randint(3, 9)
+            if n == 2:
+                ps = [float("%.*f" % (e, 100 - 10.0 ** -e))]
+            else:
+                ps = sorted(ps[:-1] + [float("%.*f" % (e, 100 - sum(ps[:-1]) - 10.0 ** -e))])
+            stats["tiny_remainder"] = stats.get("tiny_remainder", 0) + 1
         word = rng.choice(["vol%", "%vol", "volume%", "v%", "%v", "vol% "] if vol else ["wt%", "%wt", "weight%", "mass%", "w%", "m%", "%mass", "%w"])
         sp = rng.choice([" ", " ", ""])
         s = "%s%s%s %s" % (num(ps[0]), sp, word, comps[0])
